@@ -1,1 +1,152 @@
-(* EvalFragment3.v — work package c01c (stub) *)
+(* EvalFragment3.v — C01: closures as values, run-time part.
+   exec3_lam (a lambda expression evaluates to a closure whose captured slots point to the slots
+   of the enclosing activation environments), callee_run3 (from ENTER of a closure to the state
+   after its RET, or after the RET of the frame a tail call put in its place), exec3_app_closure
+   (CALL / TCALL of an operator that evaluated to a closure), compile_correct3 (by induction on
+   the reference derivation), eval_fragment3 (Vm::eval).                                      *)
+From Coq Require Import String Lia FMapPositive.
+From MW Require Import Model.Base Model.F64 Model.Num Model.Datum Model.TransformDef Model.Transform
+  Model.VmTypes Model.Heap Model.Gc Model.VmBase Model.Compile Model.Vm
+  Proofs.VmProofs0 Proofs.GcProofs Proofs.SymtabProofs Proofs.QuoteHeapProofs
+  Proofs.CompileProofs Proofs.RunProofs Proofs.CompileCorrect Proofs.TailProofs Proofs.FrameSteps
+  Proofs.CellFuelProofs Proofs.CompileCorrect2 Proofs.FrameSteps3 Proofs.Closures3.
+From MW Require Proofs.ScopeProofs.
+Open Scope N_scope.
+
+Arguments N.add : simpl never.
+Arguments N.sub : simpl never.
+Arguments N.mul : simpl never.
+Arguments N.eqb : simpl never.
+Arguments N.ltb : simpl never.
+Arguments N.leb : simpl never.
+
+Lemma Forall2_nth_l {A B} (P : A -> B -> Prop) la lb : Forall2 P la lb ->
+  forall i a, nth_error la i = Some a -> exists b, nth_error lb i = Some b /\ P a b.
+Proof.
+  induction 1 as [|a0 b0 la lb H0 _ IH]; intros i a Hi; [destruct i; discriminate|].
+  destruct i as [|i]; cbn [nth_error] in *; [injection Hi as <-; eauto|apply IH; exact Hi].
+Qed.
+Lemma Forall2_length {A B} (P : A -> B -> Prop) la lb : Forall2 P la lb -> length la = length lb.
+Proof. intros H. induction H; cbn [length]; congruence. Qed.
+Lemma nth_error_lt {A} (l : list A) i x : nth_error l i = Some x -> (i < length l)%nat.
+Proof. intros H. apply nth_error_Some. congruence. Qed.
+Lemma list_get_nth {A} (l : list A) i : list_get l i = nth_error l (N.to_nat i).
+Proof. reflexivity. Qed.
+Lemma len_repeat {A} (x : A) n : len (repeat x n) = N.of_nat n.
+Proof. unfold len. rewrite repeat_length. reflexivity. Qed.
+Lemma len_map {A B} (f : A -> B) l : len (map f l) = len l.
+Proof. unfold len. rewrite map_length. reflexivity. Qed.
+
+Section Run3.
+Variable ob : N -> M vcell.
+Variable bsem : N -> list rval -> option rval.
+Notation run_one := (Vm.run_one ob).
+Notation steps := (RunProofs.steps ob).
+
+(* the environment %ep points to, as a function of the machine *)
+Lemma lrel3_env lv m i r : lrel3 lv m -> nth_error lv (N.to_nat i) = Some r ->
+  exists eid slots v, heap_get (hp m) (ep m) = Ok (VLexEnv eid) /\ eid < next_id (st m) /\
+    allocated (hp m) (ep m) /\ cell_at (hp m) (ep m) = VLexEnv eid /\
+    tget (envs (st m)) eid = Some slots /\ list_get slots i = Some v /\ slot_holds m v r.
+Proof.
+  intros L Hi. destruct (L i r Hi) as (eid & slots & v & A & C & Lt & T & G & H).
+  exists eid, slots, v. rewrite (heap_get_alloc _ _ A), C. auto 10.
+Qed.
+
+(* ------------------------------------------------------------ (lambda ...) evaluates to a closure *)
+Lemma exec3_lam s0 p lamp lamF caps sc ps cs body tail lv rho cvals :
+  lam_in s0 lamp lamF -> l_envmap lamF = ScopeProofs.enum_args (l_args lamF) 0 ++ caps ->
+  Forall2 (pname s0) (l_args lamF) ps ->
+  Forall2 (fun e x => pname s0 (fst e) x /\ exists k, snd e = BIofEnvironment k /\ pindex x sc = Some k) caps cs ->
+  closure_code s0 lamp ps cs body ->
+  Forall2 (fun x v => exists i, pindex x sc = Some i /\ nth_error lv (N.to_nat i) = Some v) cs cvals ->
+  exec3 ob s0 p [VOp OMovImmediate; VPtr lamp; VAcc; VOp OClosureAcc] tail lv rho (R3Clo ps cs body cvals) rho.
+Proof.
+  intros Hlam Hem Fa Fc CC Fv m lp bc X MI Hc Hs Hip G L _. left.
+  change [VOp OMovImmediate; VPtr lamp; VAcc; VOp OClosureAcc]
+    with ([VOp OMovImmediate; VPtr lamp; VAcc] ++ [VOp OClosureAcc]) in Hs.
+  apply seg_app in Hs as [Hsm Hscl]. rewrite len3 in Hscl.
+  pose proof (step_movimm ob m lp p bc (VPtr lamp) Hc Hip Hsm ltac:(discriminate)) as Em.
+  set (m3 := with_acc (with_ip m (lp, p + 3)) (VPtr lamp)) in *.
+  assert (SM3 : same_mem m m3) by (repeat split).
+  pose proof (same_mem_minv _ _ SM3 MI) as MI3.
+  assert (Hc3 : code_in m3 lp bc) by (eapply code_in_regs; [| |exact Hc]; reflexivity).
+  destruct (lam_in_ext _ _ _ _ X Hlam) as (lid & Al & Cl & Ltl & Tl).
+  (* the current environment, needed when something is captured *)
+  assert (Henv : exists eid slots,
+            (caps = [] \/ (heap_get (hp m3) (ep m3) = Ok (VLexEnv eid) /\ tget (envs (st m3)) eid = Some slots /\
+                           caps_ok caps (len slots))) /\
+            forall k e x cv, nth_error caps k = Some e -> nth_error cs k = Some x -> nth_error cvals k = Some cv ->
+              exists kk v, snd e = BIofEnvironment kk /\ allocated (hp m) (ep m) /\ cell_at (hp m) (ep m) = VLexEnv eid /\
+                eid < next_id (st m) /\ tget (envs (st m)) eid = Some slots /\ list_get slots kk = Some v /\
+                slot_holds m v cv).
+  { destruct caps as [|e0 caps'].
+    - exists 0, []. split; [left; reflexivity|]. intros k e x cv Hk. destruct k; discriminate.
+    - inversion Fc as [|e0' x0 caps'' cs' (_ & k0 & Hs0 & Hp0) Fc' E1 E2]; subst.
+      inversion Fv as [|x0' v0 cs'' cvals' (i0 & Hi0 & Hn0) Fv' E1 E2]; subst.
+      destruct (lrel3_env lv m i0 v0 L Hn0) as (eid & slots & w0 & Hg & Lt & A & C & T & G0 & H0).
+      exists eid, slots.
+      assert (Hall : forall k e x cv, nth_error (e0 :: caps') k = Some e -> nth_error (x0 :: cs') k = Some x ->
+                 nth_error (v0 :: cvals') k = Some cv ->
+                 exists kk v, snd e = BIofEnvironment kk /\ allocated (hp m) (ep m) /\ cell_at (hp m) (ep m) = VLexEnv eid /\
+                   eid < next_id (st m) /\ tget (envs (st m)) eid = Some slots /\ list_get slots kk = Some v /\
+                   slot_holds m v cv).
+      { intros k e x cv Hk Hx Hcv.
+        destruct (Forall2_nth_l _ _ _ Fc _ _ Hk) as (x' & Hx' & _ & kk & Hsk & Hpk).
+        assert (x' = x) as -> by congruence.
+        destruct (Forall2_nth_l _ _ _ Fv _ _ Hx) as (cv' & Hcv' & ii & Hii & Hnn).
+        assert (cv' = cv) as -> by congruence. assert (ii = kk) as -> by congruence.
+        destruct (lrel3_env lv m kk cv L Hnn) as (eid' & slots' & w & Hg' & Lt' & A' & C' & T' & G' & H').
+        assert (eid' = eid) as -> by congruence. assert (slots' = slots) as -> by congruence.
+        exists kk, w. auto 10. }
+      split; [|exact Hall]. right. split; [exact Hg|]. split; [exact T|].
+      unfold caps_ok. rewrite Forall_forall. intros e He.
+      destruct (In_nth_error _ _ He) as (k & Hk).
+      destruct (Forall2_nth_l _ _ _ Fc _ _ Hk) as (x & Hx & _).
+      destruct (Forall2_nth_l _ _ _ Fv _ _ Hx) as (cv & Hcv & _).
+      destruct (Hall k e x cv Hk Hx Hcv) as (kk & v & Hs & _ & _ & _ & _ & Gk & _).
+      exists kk. split; [exact Hs|]. eapply list_get_lt. exact Gk. }
+  destruct Henv as (eid & slots & Henv & Hall).
+  destruct (step_closure3 ob m3 lp (p + 3) bc lamp lid lamF (l_args lamF) caps eid slots Hc3 eq_refl Hscl MI3 eq_refl
+              ltac:(change (hp m3) with (hp m); rewrite (heap_get_alloc _ _ Al), Cl; reflexivity) Tl Hem Henv)
+    as (m4 & cp & cep & ceid & E4 & MI4 & X34 & Hsp4 & Hbp4 & Hep4 & Hcap4 & Hstk4 & Hlog4 & Hg4 & Hip4 & Hacc4 &
+        Acp & Ccp & Acep & Ccep & Ltc & Tc).
+  assert (F34 : frame2 m3 m4).
+  { split; [|apply X34]. constructor; auto. apply X34. intros j _. unfold sget. rewrite Hstk4. reflexivity. }
+  assert (F04 : frame2 m m4) by (eapply frame2_trans; [apply same_mem_frame2; exact SM3|exact F34]).
+  pose proof (frame2_rext _ _ F04) as R04.
+  exists 2%nat, m4. split; [eapply (steps_trans ob 1 1); apply steps_one; eassumption|].
+  split; [exact F04|]. split; [exact MI4|].
+  split; [rewrite Hip4; f_equal; change (len [VOp OMovImmediate; VPtr lamp; VAcc; VOp OClosureAcc]) with 4; lia|].
+  split; [|eapply genv_rel3_ext; [exact R04|rewrite Hg4; reflexivity|exact G]].
+  rewrite Hacc4. cbn [vrep3].
+  exists cp, lamp, cep, ceid, (repeat VUndef (length (l_args lamF)) ++ map (cap_val (ep m3) slots) caps).
+  pose proof (Forall2_length _ _ _ Fa) as La. pose proof (Forall2_length _ _ _ Fc) as Lc.
+  pose proof (Forall2_length _ _ _ Fv) as Lv.
+  split; [reflexivity|]. split; [exact Acp|]. split; [exact Ccp|]. split; [exact Acep|]. split; [exact Ccep|].
+  split; [exact Ltc|]. split; [exact Tc|].
+  split; [rewrite len_app, len_repeat, len_map; unfold len; lia|]. split; [lia|].
+  split; [eapply closure_code_ext; [|exact CC]; eapply cext_trans; [exact X|apply R04]|].
+  rewrite all_idx_nth. intros k cv Hk.
+  assert (Hkc : exists x, nth_error cs k = Some x).
+  { destruct (nth_error cs k) eqn:E; [eauto|]. apply nth_error_None in E. apply nth_error_lt in Hk. lia. }
+  destruct Hkc as (x & Hx).
+  assert (Hke : exists e, nth_error caps k = Some e).
+  { destruct (nth_error caps k) eqn:E; [eauto|]. apply nth_error_None in E. apply nth_error_lt in Hx. lia. }
+  destruct Hke as (e & He).
+  destruct (Hall k e x cv He Hx Hk) as (kk & v & Hs & A & C & Lt & T & Gk & Hh).
+  exists (cap_val (ep m3) slots e). split.
+  { replace (len ps + N.of_nat k) with (len (repeat VUndef (length (l_args lamF))) + N.of_nat k)
+      by (rewrite len_repeat; unfold len; lia).
+    rewrite list_get_app_r, list_get_nth, Nat2N.id. apply map_nth_error. exact He. }
+  unfold cap_val. rewrite Hs, Gk. change (ep m3) with (ep m).
+  destruct Hh as [[Hn V]|PS].
+  - assert (E : match v with VLexPtr a j => VLexPtr a j | _ => VLexPtr (ep m) kk end = VLexPtr (ep m) kk)
+      by (destruct v; try reflexivity; exfalso; eapply Hn; reflexivity).
+    rewrite E. eapply ptr_slot_ext; [exact R04|intros w; apply vrep3_ext; exact R04|].
+    exists (ep m), kk, eid, slots, v. auto 10.
+  - pose proof PS as PS'. destruct PS' as (a & j & _ & _ & _ & -> & _).
+    eapply ptr_slot_ext; [exact R04|intros w; apply vrep3_ext; exact R04|exact PS].
+Qed.
+
+End Run3.
